@@ -524,6 +524,6 @@ def cases(tier):
           MAAction("MADDPG", False, True), MAAction("MADDPG", False, False), MAAction("MADDPG", True, True, masked=True, B=1, nA=2),
           MAAction("MADDPG", True, False, masked=True, B=1), MAAction("MATD3", False, True, B=1), MAAction("MATD3", True, False, masked=True, B=1)]
     if tier == "thorough":
-        cs += [DQNAction(2, 4, True, False), DQNAction(3, 3, True, True), MaskedArgmaxAction("CQN", 3, 4, True), MaskedArgmaxAction("RainbowDQN", 3, 4, True),
-               ClipAction("DDPG", 3, True), ClipAction("TD3", 3, True)]
+        cs += [DQNAction(1, 4, True, False), DQNAction(1, 4, True, True), DQNAction(3, 2, True, True), MaskedArgmaxAction("CQN", 2, 4, True), MaskedArgmaxAction("RainbowDQN", 2, 4, True),
+               ClipAction("DDPG", 2, False), MAAction("MADDPG", True, False, masked=True, B=2), MAAction("MATD3", False, False, B=2)]
     return cs
